@@ -7,8 +7,8 @@ Recursive-descent transcription of the statement rules of
 looks at.  Things the grammar accepts and the visitor ignores are kept visible:
 
 * `opaque …;` → `Stmt.opaqueDecl` (no visitor method),
-* `if (c == n) qop` → the `qop` itself (the visitor is a top-down walk over *all* subtrees, so
-  the guarded operation is applied unconditionally),
+* `if (c == n) qop` → rejected: the grammar has the form, the visitor's `statement` hook raises
+  `LangException` for it (classically controlled operations are not supported),
 * `barrier`/`barrierp` inside a gate body → `BStmt.barrier` (inlined in `goplist`, no callback);
   a `barrier` as the FIRST body statement is not in the grammar (`goplist` must start with
   `uopp` or `"barrierp"`), Lark's contextual lexer then reads the word as an identifier →
@@ -246,10 +246,7 @@ def pStmt : P (Stmt V)
         | some (_, .sym ";" :: r'') => some (.opaqueDecl, r'')
         | _ => none)
      | none => none)
-  | .kw "if" :: .sym "(" :: .id _ :: .sym "==" :: .num n :: .sym ")" :: r =>
-    (match parseNNInt n with
-     | some _ => pQop r          -- the condition is dropped, as the visitor does
-     | none => none)
+  | .kw "if" :: _ => none       -- parses, but the `statement` visitor hook raises LangException
   | .kw "barrier" :: r =>
     (match pArgList (r.length + 1) r with
      | some (as, .sym ";" :: r') => some (.barrier as, r')
